@@ -116,12 +116,13 @@ package context
 //@     assert [C03] mapstore: nstore == 0 && recv == containerOf(VAL) && rv_kind(containerOf(VAL)) == 21 && lastval && arg1 == WV && ((len(mapVarVarkey) > 0 && nw == 2 && arg0 == WK) || (len(mapVarVarkey) == 0 && len(mapVarStrkey) > 0 && nw == 1 && rv_kind(arg0) == 24 && rv_str(arg0) == mapVarStrkey) || (len(mapVarVarkey) == 0 && len(mapVarStrkey) == 0 && nw == 2 && arg0 == WK))
 //@     after nstore := nstore + 1
 //@   oncall (reflect.Value).Set
-//@     assert [C03] seqstore: nstore == 0 && (rv_kind(containerOf(VAL)) == 23 || rv_kind(containerOf(VAL)) == 17) && lastval && nw == 1 && arg0 == WV && ((len(mapVarVarkey) > 0 && recv == rv_index(containerOf(VAL), rv_int(KV))) || (len(mapVarVarkey) == 0 && len(mapVarStrkey) == 0 && mapVarIntkey >= 0 && recv == rv_index(containerOf(VAL), mapVarIntkey)))
+//@     assert [C03] seqstore: nstore == 0 && (rv_kind(containerOf(VAL)) == 23 || rv_kind(containerOf(VAL)) == 17) && lastval && nw == 1 && arg0 == WV && ((len(mapVarVarkey) > 0 && (iK(rv_kind(KV)) && inK(rv_int(KV), 2) ==> recv == rv_index(containerOf(VAL), rv_int(KV)))) || (len(mapVarVarkey) == 0 && len(mapVarStrkey) == 0 && mapVarIntkey >= 0 && recv == rv_index(containerOf(VAL), mapVarIntkey)))
 //@     after nstore := nstore + 1
 //@   ensures [C03] stored: result == nil ==> nstore == 1
 //@   ensures [C03] refused: result != nil ==> nstore == 0
 //@   ensures [C03] lookuperr: gerr != nil ==> result != nil
 //@   ensures [C03] accepts: gerr == nil && ((rv_kind(containerOf(VAL)) == 21) || ((rv_kind(containerOf(VAL)) == 23 || rv_kind(containerOf(VAL)) == 17) && (len(mapVarVarkey) > 0 || (len(mapVarStrkey) == 0 && mapVarIntkey >= 0)))) ==> result == nil
+//@   nopanic own when !strContains(mapVarName, ".") && !strContains(mapVarVarkey, ".") && len(mapVarVarkey) > 0 && (mapVarName in dc.base) && (mapVarVarkey in dc.base) && (rv_kind(containerOf(dc.base[mapVarName])) == 23 || rv_kind(containerOf(dc.base[mapVarName])) == 17) && iK(rv_kind(dc.base[mapVarVarkey])) && 0 <= rv_int(dc.base[mapVarVarkey]) && rv_int(dc.base[mapVarVarkey]) < rv_len(containerOf(dc.base[mapVarName])) && rv_canset(rv_index(containerOf(dc.base[mapVarName]), rv_int(dc.base[mapVarVarkey]))) && rv_kind(setValue) == rt_kind(rt_elem(rv_typ(containerOf(dc.base[mapVarName]))))
 //@   modifies nothing
 
 // calls (C03): the callee is resolved injected-first, the arguments are coerced to the declared parameter kinds and
